@@ -93,7 +93,8 @@ structure Cfg where
   evFlow       : Bool     -- onchain/eth_subscribe.go + onchainLoop: every subscribed event has a table entry and a case, payload fields are verbatim copies of the binding's (non-nil) fields, the wrapper carries `log: l` and the binding's Removed flag, only *OnchainError values are sent as errors
   -- sign/tbls, share
   sigIdxLen    : Bool     -- tbls.Recover: Index() error returned before Value() slices [2:]
-  recoverDedup : Bool     -- RecoverCommit / tbls.Recover: shares with a repeated index are not interpolated twice
+  recoverDedup : Bool     -- tbls.Recover: shares with a repeated index (or one ≥ n) are not handed to RecoverCommit
+  rcDedup      : Bool     -- share.RecoverCommit (2d8b40a): one share per index
   -- p2p
   anyNil       : Bool     -- decodeBytes: package without Anything rejected
   ridCast      : Bool     -- receiveID: `ptr.Message.(*ID)` comma-ok
@@ -113,7 +114,7 @@ def Cfg.all : Cfg :=
     respsDkgNil := true, respsCast := true, findPubDkg := true, respNil := true, respVerOk := true, pubKeyLen := true, peerRespNil := true,
     encNil := true, nonceLen := true, secShareNil := true, shareVNil := true, findPubVss := true, aggNil := true,
     toBigLen := true, qloopOk := true, qloopCast := true, rsNil := true, rsMake := true, groupInfoIds := true,
-    byte32Len := true, crRand := true, bootReq := true, secNil := true, feCast := true, evFlow := true, sigIdxLen := true, recoverDedup := true, anyNil := true, ridCast := true,
+    byte32Len := true, crRand := true, bootReq := true, secNil := true, feCast := true, evFlow := true, sigIdxLen := true, recoverDedup := true, rcDedup := true, anyNil := true, ridCast := true,
     ridLen := true, readSize := true, mdNil := true, dispReplyNil := true, callRemoveNil := true, callIdMatch := true, listenName := true, listenCast := true, lookupName := true }
 
 /-! ### association lists (Go maps) -/
